@@ -86,4 +86,20 @@ abbrev Handler := String → List Tok → Option (List Tok)
     property admits more than one correct answer. -/
 abbrev PredHandler := String → List Tok → List Tok → Option (Option String)
 
+/-- Stateful handlers (op names start with `@`): the state lives in the driver across lines and is
+    re-initialised by `@reset`.  An Ops file defines `def stateful : IO StatefulHandler := mkStateful init step`
+    with a pure `step : σ → String → List Tok → Option (σ × List Tok)` (`none` = not mine). -/
+structure StatefulHandler where
+  reset : IO Unit
+  run : String → List Tok → IO (Option (List Tok))
+
+def mkStateful {σ : Type} (init : σ) (step : σ → String → List Tok → Option (σ × List Tok)) :
+    IO StatefulHandler := do
+  let r ← IO.mkRef init
+  pure { reset := r.set init,
+         run := fun op toks => do
+           match step (← r.get) op toks with
+           | some (s', out) => r.set s'; pure (some out)
+           | none => pure none }
+
 end Mpir
